@@ -545,7 +545,9 @@ func comparableFilters(c *Ctx) []cmpFilter {
 						return f
 					}
 					acc, eq = unwrap(acc), unwrap(eq)
-					if acc.Synthetic != "" || eq.Synthetic != "" {
+					// a type that declares its own Equals but inherits Accept from an embedded filter
+					// (a wrapper) is judged too: its Equals must still cover what the promoted Accept reads
+					if eq.Synthetic != "" || acc.Synthetic != "" && acc.Blocks == nil {
 						continue
 					}
 					sig := eq.Signature
